@@ -8,189 +8,6 @@ answers exactly what the pure function `resolve` answers — whatever the Deferr
 -/
 namespace Pcore.Immut
 
-theorem dtyResolve_ok (W : Writes) (n : String) (m : Option String) (hm : (RV.dty n m).memoOK = true) :
-    (dtyResolve W n m).2 = typeText n ∧ (RV.dty n (dtyResolve W n m).1).memoOK = true := by
-  simp only [RV.memoOK, Bool.or_eq_true, beq_iff_eq] at hm
-  unfold dtyResolve
-  cases hW : W.dtyMemo with
-  | none => exact ⟨rfl, by simp only [RV.memoOK, Bool.or_eq_true, beq_iff_eq]; exact hm⟩
-  | some b =>
-    cases b with
-    | false => exact ⟨rfl, by simp [RV.memoOK]⟩
-    | true =>
-      cases m with
-      | none => exact ⟨rfl, by simp [RV.memoOK]⟩
-      | some t =>
-        rcases hm with hm | hm
-        · cases hm
-        · simp only [Option.some.injEq] at hm
-          subst hm
-          exact ⟨rfl, by simp [RV.memoOK]⟩
-
-mutual
-theorem resolveW_frame (W : Writes) (hW : W.dfrArgs = false) (sc : List RV) :
-    ∀ v : RV, v.memoOK = true →
-      (resolveW W sc v).1.erase = v.erase ∧ (resolveW W sc v).1.memoOK = true ∧ (resolveW W sc v).2 = resolve sc v
-  | .int _, _ => by simp [resolveW, resolve, RV.memoOK]
-  | .str _, _ => by simp [resolveW, resolve, RV.memoOK]
-  | .undef, _ => by simp [resolveW, resolve, RV.memoOK]
-  | .ty _, _ => by simp [resolveW, resolve, RV.memoOK]
-  | .ent k v, hm => by simp [resolveW, resolve, hm]
-  | .dty n m, hm => by
-      obtain ⟨h1, h2⟩ := dtyResolve_ok W n m hm
-      simp only [resolveW, resolve, RV.erase, h1]
-      exact ⟨trivial, h2, trivial⟩
-  | .arr xs, hm => by
-      simp only [RV.memoOK] at hm
-      obtain ⟨h1, h2, h3⟩ := resolveWL_frame W hW sc xs hm
-      simp only [resolveW, resolve]
-      rw [← h3]
-      rcases hr : resolveWL W sc xs with ⟨xs', r⟩
-      rw [hr] at h1 h2
-      cases r with
-      | error e => exact ⟨by simp only [RV.erase]; rw [h1], by simp only [RV.memoOK]; exact h2, rfl⟩
-      | ok ys => exact ⟨by simp only [RV.erase]; rw [h1], by simp only [RV.memoOK]; exact h2, rfl⟩
-  | .hsh es, hm => by
-      simp only [RV.memoOK] at hm
-      obtain ⟨h1, h2, h3⟩ := resolveWH_frame W hW sc es hm
-      simp only [resolveW, resolve]
-      rw [← h3]
-      rcases hr : resolveWH W sc es with ⟨es', r⟩
-      rw [hr] at h1 h2
-      cases r with
-      | error e => exact ⟨by simp only [RV.erase]; rw [h1], by simp only [RV.memoOK]; exact h2, rfl⟩
-      | ok ys => exact ⟨by simp only [RV.erase]; rw [h1], by simp only [RV.memoOK]; exact h2, rfl⟩
-  | .dfr n as, hm => by
-      simp only [RV.memoOK] at hm
-      obtain ⟨h1, h2, h3⟩ := resolveWL_frame W hW sc as hm
-      simp only [resolveW, resolve, hW, Bool.false_and, Bool.false_eq_true, if_false]
-      rw [← h3]
-      rcases hr : resolveWL W sc as with ⟨as', r⟩
-      rw [hr] at h1 h2
-      cases r with
-      | error e => exact ⟨by simp only [RV.erase]; rw [h1], by simp only [RV.memoOK]; exact h2, rfl⟩
-      | ok ys => exact ⟨by simp only [RV.erase]; rw [h1], by simp only [RV.memoOK]; exact h2, rfl⟩
-theorem resolveWL_frame (W : Writes) (hW : W.dfrArgs = false) (sc : List RV) :
-    ∀ xs : List RV, memoOKL xs = true →
-      eraseL (resolveWL W sc xs).1 = eraseL xs ∧ memoOKL (resolveWL W sc xs).1 = true ∧
-        (resolveWL W sc xs).2 = resolveL sc xs
-  | [], _ => by simp [resolveWL, resolveL, eraseL, memoOKL]
-  | x :: xs, hm => by
-      simp only [memoOKL, Bool.and_eq_true] at hm
-      obtain ⟨a1, a2, a3⟩ := resolveW_frame W hW sc x hm.1
-      obtain ⟨b1, b2, b3⟩ := resolveWL_frame W hW sc xs hm.2
-      simp only [resolveWL, resolveL]
-      rw [← a3, ← b3]
-      rcases hx : resolveW W sc x with ⟨x', r⟩
-      rw [hx] at a1 a2
-      cases r with
-      | error e => exact ⟨by simp only [eraseL]; rw [a1], by simp only [memoOKL, a2, hm.2, Bool.and_self], rfl⟩
-      | ok y =>
-        simp only
-        rcases hxs : resolveWL W sc xs with ⟨xs', rs⟩
-        rw [hxs] at b1 b2
-        cases rs with
-        | error e => exact ⟨by simp only [eraseL]; rw [a1, b1], by simp only [memoOKL, a2, b2, Bool.and_self], rfl⟩
-        | ok ys => exact ⟨by simp only [eraseL]; rw [a1, b1], by simp only [memoOKL, a2, b2, Bool.and_self], rfl⟩
-theorem resolveWH_frame (W : Writes) (hW : W.dfrArgs = false) (sc : List RV) :
-    ∀ es : List RV, memoOKL es = true →
-      eraseL (resolveWH W sc es).1 = eraseL es ∧ memoOKL (resolveWH W sc es).1 = true ∧
-        (resolveWH W sc es).2 = resolveH sc es
-  | [], _ => by simp [resolveWH, resolveH, eraseL, memoOKL]
-  | .ent k v :: es, hm => by
-      simp only [memoOKL, RV.memoOK, Bool.and_eq_true] at hm
-      obtain ⟨a1, a2, a3⟩ := resolveW_frame W hW sc k hm.1.1
-      obtain ⟨c1, c2, c3⟩ := resolveW_frame W hW sc v hm.1.2
-      obtain ⟨b1, b2, b3⟩ := resolveWH_frame W hW sc es hm.2
-      simp only [resolveWH, resolveH]
-      rw [← a3, ← c3, ← b3]
-      rcases hk : resolveW W sc k with ⟨k', rk⟩
-      rw [hk] at a1 a2
-      cases rk with
-      | error e =>
-        exact ⟨by simp only [eraseL, RV.erase]; rw [a1], by simp only [memoOKL, RV.memoOK, a2, hm.1.2, hm.2, Bool.and_self], rfl⟩
-      | ok k2 =>
-        simp only
-        rcases hv : resolveW W sc v with ⟨v', rv⟩
-        rw [hv] at c1 c2
-        cases rv with
-        | error e =>
-          exact ⟨by simp only [eraseL, RV.erase]; rw [a1, c1], by simp only [memoOKL, RV.memoOK, a2, c2, hm.2, Bool.and_self], rfl⟩
-        | ok v2 =>
-          simp only
-          rcases hes : resolveWH W sc es with ⟨es', rs⟩
-          rw [hes] at b1 b2
-          cases rs with
-          | error e =>
-            exact ⟨by simp only [eraseL, RV.erase]; rw [a1, c1, b1], by simp only [memoOKL, RV.memoOK, a2, c2, b2, Bool.and_self], rfl⟩
-          | ok fs =>
-            exact ⟨by simp only [eraseL, RV.erase]; rw [a1, c1, b1], by simp only [memoOKL, RV.memoOK, a2, c2, b2, Bool.and_self], rfl⟩
-  | .int i :: es, hm => by
-      simp only [memoOKL, Bool.and_eq_true] at hm
-      obtain ⟨b1, b2, b3⟩ := resolveWH_frame W hW sc es hm.2
-      simp only [resolveWH, resolveH]
-      rw [← b3]
-      rcases hes : resolveWH W sc es with ⟨es', rs⟩
-      rw [hes] at b1 b2
-      cases rs <;> exact ⟨by simp only [eraseL]; rw [b1], by simp only [memoOKL, hm.1, b2, Bool.and_self], rfl⟩
-  | .str i :: es, hm => by
-      simp only [memoOKL, Bool.and_eq_true] at hm
-      obtain ⟨b1, b2, b3⟩ := resolveWH_frame W hW sc es hm.2
-      simp only [resolveWH, resolveH]
-      rw [← b3]
-      rcases hes : resolveWH W sc es with ⟨es', rs⟩
-      rw [hes] at b1 b2
-      cases rs <;> exact ⟨by simp only [eraseL]; rw [b1], by simp only [memoOKL, hm.1, b2, Bool.and_self], rfl⟩
-  | .undef :: es, hm => by
-      simp only [memoOKL, Bool.and_eq_true] at hm
-      obtain ⟨b1, b2, b3⟩ := resolveWH_frame W hW sc es hm.2
-      simp only [resolveWH, resolveH]
-      rw [← b3]
-      rcases hes : resolveWH W sc es with ⟨es', rs⟩
-      rw [hes] at b1 b2
-      cases rs <;> exact ⟨by simp only [eraseL]; rw [b1], by simp only [memoOKL, hm.1, b2, Bool.and_self], rfl⟩
-  | .ty i :: es, hm => by
-      simp only [memoOKL, Bool.and_eq_true] at hm
-      obtain ⟨b1, b2, b3⟩ := resolveWH_frame W hW sc es hm.2
-      simp only [resolveWH, resolveH]
-      rw [← b3]
-      rcases hes : resolveWH W sc es with ⟨es', rs⟩
-      rw [hes] at b1 b2
-      cases rs <;> exact ⟨by simp only [eraseL]; rw [b1], by simp only [memoOKL, hm.1, b2, Bool.and_self], rfl⟩
-  | .arr i :: es, hm => by
-      simp only [memoOKL, Bool.and_eq_true] at hm
-      obtain ⟨b1, b2, b3⟩ := resolveWH_frame W hW sc es hm.2
-      simp only [resolveWH, resolveH]
-      rw [← b3]
-      rcases hes : resolveWH W sc es with ⟨es', rs⟩
-      rw [hes] at b1 b2
-      cases rs <;> exact ⟨by simp only [eraseL]; rw [b1], by simp only [memoOKL, hm.1, b2, Bool.and_self], rfl⟩
-  | .hsh i :: es, hm => by
-      simp only [memoOKL, Bool.and_eq_true] at hm
-      obtain ⟨b1, b2, b3⟩ := resolveWH_frame W hW sc es hm.2
-      simp only [resolveWH, resolveH]
-      rw [← b3]
-      rcases hes : resolveWH W sc es with ⟨es', rs⟩
-      rw [hes] at b1 b2
-      cases rs <;> exact ⟨by simp only [eraseL]; rw [b1], by simp only [memoOKL, hm.1, b2, Bool.and_self], rfl⟩
-  | .dfr n i :: es, hm => by
-      simp only [memoOKL, Bool.and_eq_true] at hm
-      obtain ⟨b1, b2, b3⟩ := resolveWH_frame W hW sc es hm.2
-      simp only [resolveWH, resolveH]
-      rw [← b3]
-      rcases hes : resolveWH W sc es with ⟨es', rs⟩
-      rw [hes] at b1 b2
-      cases rs <;> exact ⟨by simp only [eraseL]; rw [b1], by simp only [memoOKL, hm.1, b2, Bool.and_self], rfl⟩
-  | .dty n i :: es, hm => by
-      simp only [memoOKL, Bool.and_eq_true] at hm
-      obtain ⟨b1, b2, b3⟩ := resolveWH_frame W hW sc es hm.2
-      simp only [resolveWH, resolveH]
-      rw [← b3]
-      rcases hes : resolveWH W sc es with ⟨es', rs⟩
-      rw [hes] at b1 b2
-      cases rs <;> exact ⟨by simp only [eraseL]; rw [b1], by simp only [memoOKL, hm.1, b2, Bool.and_self], rfl⟩
-end
-
 /-! ### resolution does not look at memos: values with the same observable content resolve alike -/
 
 def eraseR : Except RErr RV → Except RErr RV
@@ -207,7 +24,7 @@ theorem erase_idem : ∀ v : RV, v.erase.erase = v.erase
   | .str _ => rfl
   | .undef => rfl
   | .ty _ => rfl
-  | .dty _ _ => rfl
+  | .dty _ ps _ => by simp only [RV.erase]; rw [eraseL_idem ps]
   | .ent k v => by simp only [RV.erase]; rw [erase_idem k, erase_idem v]
   | .arr xs => by simp only [RV.erase]; rw [eraseL_idem xs]
   | .hsh xs => by simp only [RV.erase]; rw [eraseL_idem xs]
@@ -223,7 +40,7 @@ theorem hashable_erase : ∀ v : RV, v.erase.hashable = v.hashable
   | .str _ => rfl
   | .undef => rfl
   | .ty _ => rfl
-  | .dty _ _ => rfl
+  | .dty _ _ _ => rfl
   | .ent k v => by simp only [RV.erase, RV.hashable]; rw [hashable_erase k, hashable_erase v]
   | .arr xs => by simp only [RV.erase, RV.hashable]; rw [hashableL_erase xs]
   | .hsh xs => by simp only [RV.erase, RV.hashable]; rw [hashableL_erase xs]
@@ -274,7 +91,7 @@ theorem digStep_erase (d k : RV) : digStep d.erase k.erase = eraseR (digStep d k
   | ty s =>
     cases d <;> simp only [digStep, RV.erase, eraseR]
     · exact hget_erase (.ty s) _
-  | dty n m =>
+  | dty n ps m =>
     cases d <;> simp [digStep, RV.erase, eraseR, RV.hashable]
   | dfr n xs =>
     cases d <;> simp [digStep, RV.erase, eraseR, RV.hashable]
@@ -308,6 +125,14 @@ theorem eraseL_isEmpty : ∀ {xs ys : List RV}, eraseL xs = eraseL ys → xs.isE
   | _ :: _, [], h => by simp [eraseL] at h
   | _ :: _, _ :: _, _ => rfl
 
+theorem headD_erase : ∀ {xs ys : List RV}, eraseL xs = eraseL ys → (xs.headD .undef).erase = (ys.headD .undef).erase
+  | [], [], _ => rfl
+  | [], _ :: _, h => by simp [eraseL] at h
+  | _ :: _, [], h => by simp [eraseL] at h
+  | x :: _, y :: _, h => by
+      simp only [eraseL, List.cons.injEq] at h
+      simpa using h.1
+
 theorem finish_sim (sc : List RV) (n : String) {da da' : List RV} (h : eraseL da = eraseL da') :
     eraseR (finish sc n da) = eraseR (finish sc n da') := by
   unfold finish
@@ -326,104 +151,155 @@ theorem finish_sim (sc : List RV) (n : String) {da da' : List RV} (h : eraseL da
     simp only
     split
     · simp only [eraseR, RV.erase]; rw [h]
-    · rfl
+    · split
+      · simp only [eraseR]
+        congr 1
+        exact headD_erase h
+      · rfl
+
+/-! ### `ResolveWithParams` looks at the texts of its parameters only -/
+
+theorem tyTexts_erase : ∀ xs : List RV, tyTexts (eraseL xs) = tyTexts xs
+  | [] => rfl
+  | x :: xs => by
+      cases x <;> simp only [eraseL, RV.erase, tyTexts]
+      rw [tyTexts_erase xs]
+
+theorem paramTypeText_erase (n : String) (as : List RV) : paramTypeText n (eraseL as) = paramTypeText n as := by
+  unfold paramTypeText
+  rw [tyTexts_erase]
+
+theorem paramTypeText_sim (n : String) {as as' : List RV} (h : eraseL as = eraseL as') :
+    paramTypeText n as = paramTypeText n as' := by
+  rw [← paramTypeText_erase n as, ← paramTypeText_erase n as', h]
+
+theorem eraseL_isEmpty' (xs : List RV) : (eraseL xs).isEmpty = xs.isEmpty := by
+  cases xs <;> rfl
 
 mutual
-theorem resolve_erase (sc : List RV) : ∀ v : RV, eraseR (resolve sc v) = eraseR (resolve sc v.erase)
+theorem resolve_erase (d : Bool) (sc : List RV) : ∀ v : RV, eraseR (resolve d sc v) = eraseR (resolve d sc v.erase)
   | .int _ => rfl
   | .str _ => rfl
   | .undef => rfl
   | .ty _ => rfl
-  | .dty _ _ => by simp [resolve, RV.erase, eraseR]
-  | .ent k v => by simp only [resolve, RV.erase, eraseR]; rw [erase_idem k, erase_idem v]
+  | .dty n ps m => by
+      have ih := resolveL_erase true [] ps
+      simp only [resolve, RV.erase, eraseL_isEmpty']
+      split
+      · rfl
+      · cases h1 : resolveL true [] ps <;> cases h2 : resolveL true [] (eraseL ps) <;> rw [h1, h2] at ih <;>
+          simp only [eraseRL, Except.ok.injEq, Except.error.injEq, reduceCtorEq] at ih
+        · simp [ih]
+        · simp only
+          rw [paramTypeText_sim n ih]
+  | .ent k v => by
+      have i1 := resolve_erase d sc k
+      have i2 := resolve_erase d sc v
+      cases d with
+      | false => simp only [resolve, RV.erase, eraseR, Bool.false_eq_true, if_false]; rw [erase_idem k, erase_idem v]
+      | true =>
+        simp only [resolve, RV.erase, if_true]
+        cases h1 : resolve true sc k <;> cases h2 : resolve true sc k.erase <;> rw [h1, h2] at i1 <;>
+          simp only [eraseR, Except.ok.injEq, Except.error.injEq, reduceCtorEq] at i1
+        · simp [eraseR, i1]
+        · simp only
+          cases h3 : resolve true sc v <;> cases h4 : resolve true sc v.erase <;> rw [h3, h4] at i2 <;>
+            simp only [eraseR, Except.ok.injEq, Except.error.injEq, reduceCtorEq] at i2 <;> simp [eraseR, RV.erase, i1, i2]
   | .arr xs => by
-      have ih := resolveL_erase sc xs
+      have ih := resolveL_erase d sc xs
       simp only [resolve, RV.erase]
-      cases h1 : resolveL sc xs <;> cases h2 : resolveL sc (eraseL xs) <;> rw [h1, h2] at ih <;>
+      cases h1 : resolveL d sc xs <;> cases h2 : resolveL d sc (eraseL xs) <;> rw [h1, h2] at ih <;>
         simp only [eraseRL, Except.ok.injEq, Except.error.injEq, reduceCtorEq] at ih <;> simp [eraseR, RV.erase, ih]
   | .hsh xs => by
-      have ih := resolveH_erase sc xs
+      have ih := resolveH_erase d sc xs
       simp only [resolve, RV.erase]
-      cases h1 : resolveH sc xs <;> cases h2 : resolveH sc (eraseL xs) <;> rw [h1, h2] at ih <;>
+      cases h1 : resolveH d sc xs <;> cases h2 : resolveH d sc (eraseL xs) <;> rw [h1, h2] at ih <;>
         simp only [eraseRL, Except.ok.injEq, Except.error.injEq, reduceCtorEq] at ih <;> simp [eraseR, RV.erase, ih]
   | .dfr n xs => by
-      have ih := resolveL_erase sc xs
+      have ih := resolveL_erase false sc xs
       simp only [resolve, RV.erase]
-      cases h1 : resolveL sc xs <;> cases h2 : resolveL sc (eraseL xs) <;> rw [h1, h2] at ih <;>
+      cases h1 : resolveL false sc xs <;> cases h2 : resolveL false sc (eraseL xs) <;> rw [h1, h2] at ih <;>
         simp only [eraseRL, Except.ok.injEq, Except.error.injEq, reduceCtorEq] at ih
       · simp [eraseR, ih]
       · exact finish_sim sc n ih
-theorem resolveL_erase (sc : List RV) : ∀ xs : List RV, eraseRL (resolveL sc xs) = eraseRL (resolveL sc (eraseL xs))
+theorem resolveL_erase (d : Bool) (sc : List RV) :
+    ∀ xs : List RV, eraseRL (resolveL d sc xs) = eraseRL (resolveL d sc (eraseL xs))
   | [] => rfl
   | x :: xs => by
-      have i1 := resolve_erase sc x
-      have i2 := resolveL_erase sc xs
+      have i1 := resolve_erase d sc x
+      have i2 := resolveL_erase d sc xs
       simp only [resolveL, eraseL]
-      cases h1 : resolve sc x <;> cases h2 : resolve sc x.erase <;> rw [h1, h2] at i1 <;>
+      cases h1 : resolve d sc x <;> cases h2 : resolve d sc x.erase <;> rw [h1, h2] at i1 <;>
         simp only [eraseR, Except.ok.injEq, Except.error.injEq, reduceCtorEq] at i1
       · simp [eraseRL, i1]
       · simp only
-        cases h3 : resolveL sc xs <;> cases h4 : resolveL sc (eraseL xs) <;> rw [h3, h4] at i2 <;>
+        cases h3 : resolveL d sc xs <;> cases h4 : resolveL d sc (eraseL xs) <;> rw [h3, h4] at i2 <;>
           simp only [eraseRL, Except.ok.injEq, Except.error.injEq, reduceCtorEq] at i2 <;> simp [eraseRL, eraseL, i1, i2]
-theorem resolveH_erase (sc : List RV) : ∀ es : List RV, eraseRL (resolveH sc es) = eraseRL (resolveH sc (eraseL es))
+theorem resolveH_erase (d : Bool) (sc : List RV) :
+    ∀ es : List RV, eraseRL (resolveH d sc es) = eraseRL (resolveH d sc (eraseL es))
   | [] => rfl
   | .ent k v :: es => by
-      have i1 := resolve_erase sc k
-      have i2 := resolve_erase sc v
-      have i3 := resolveH_erase sc es
+      have i1 := resolve_erase d sc k
+      have i2 := resolve_erase d sc v
+      have i3 := resolveH_erase d sc es
       simp only [resolveH, eraseL, RV.erase]
-      cases h1 : resolve sc k <;> cases h2 : resolve sc k.erase <;> rw [h1, h2] at i1 <;>
+      cases h1 : resolve d sc k <;> cases h2 : resolve d sc k.erase <;> rw [h1, h2] at i1 <;>
         simp only [eraseR, Except.ok.injEq, Except.error.injEq, reduceCtorEq] at i1
       · simp [eraseRL, i1]
       · simp only
-        cases h3 : resolve sc v <;> cases h4 : resolve sc v.erase <;> rw [h3, h4] at i2 <;>
+        cases h3 : resolve d sc v <;> cases h4 : resolve d sc v.erase <;> rw [h3, h4] at i2 <;>
           simp only [eraseR, Except.ok.injEq, Except.error.injEq, reduceCtorEq] at i2
         · simp [eraseRL, i2]
         · simp only
-          cases h5 : resolveH sc es <;> cases h6 : resolveH sc (eraseL es) <;> rw [h5, h6] at i3 <;>
+          cases h5 : resolveH d sc es <;> cases h6 : resolveH d sc (eraseL es) <;> rw [h5, h6] at i3 <;>
             simp only [eraseRL, Except.ok.injEq, Except.error.injEq, reduceCtorEq] at i3 <;>
             simp [eraseRL, eraseL, RV.erase, i1, i2, i3]
   | .int i :: es => by
-      have i3 := resolveH_erase sc es
+      have i3 := resolveH_erase d sc es
       simp only [resolveH, eraseL, RV.erase]
-      cases h5 : resolveH sc es <;> cases h6 : resolveH sc (eraseL es) <;> rw [h5, h6] at i3 <;>
-        simp only [eraseRL, Except.ok.injEq, Except.error.injEq, reduceCtorEq] at i3 <;> simp [eraseRL, eraseL, RV.erase, i3]
+      cases h5 : resolveH d sc es <;> cases h6 : resolveH d sc (eraseL es) <;> rw [h5, h6] at i3 <;>
+        simp only [eraseRL, Except.ok.injEq, Except.error.injEq, reduceCtorEq] at i3 <;>
+        simp [eraseRL, eraseL, RV.erase, i3]
   | .str i :: es => by
-      have i3 := resolveH_erase sc es
+      have i3 := resolveH_erase d sc es
       simp only [resolveH, eraseL, RV.erase]
-      cases h5 : resolveH sc es <;> cases h6 : resolveH sc (eraseL es) <;> rw [h5, h6] at i3 <;>
-        simp only [eraseRL, Except.ok.injEq, Except.error.injEq, reduceCtorEq] at i3 <;> simp [eraseRL, eraseL, RV.erase, i3]
+      cases h5 : resolveH d sc es <;> cases h6 : resolveH d sc (eraseL es) <;> rw [h5, h6] at i3 <;>
+        simp only [eraseRL, Except.ok.injEq, Except.error.injEq, reduceCtorEq] at i3 <;>
+        simp [eraseRL, eraseL, RV.erase, i3]
   | .undef :: es => by
-      have i3 := resolveH_erase sc es
+      have i3 := resolveH_erase d sc es
       simp only [resolveH, eraseL, RV.erase]
-      cases h5 : resolveH sc es <;> cases h6 : resolveH sc (eraseL es) <;> rw [h5, h6] at i3 <;>
-        simp only [eraseRL, Except.ok.injEq, Except.error.injEq, reduceCtorEq] at i3 <;> simp [eraseRL, eraseL, RV.erase, i3]
+      cases h5 : resolveH d sc es <;> cases h6 : resolveH d sc (eraseL es) <;> rw [h5, h6] at i3 <;>
+        simp only [eraseRL, Except.ok.injEq, Except.error.injEq, reduceCtorEq] at i3 <;>
+        simp [eraseRL, eraseL, RV.erase, i3]
   | .ty i :: es => by
-      have i3 := resolveH_erase sc es
+      have i3 := resolveH_erase d sc es
       simp only [resolveH, eraseL, RV.erase]
-      cases h5 : resolveH sc es <;> cases h6 : resolveH sc (eraseL es) <;> rw [h5, h6] at i3 <;>
-        simp only [eraseRL, Except.ok.injEq, Except.error.injEq, reduceCtorEq] at i3 <;> simp [eraseRL, eraseL, RV.erase, i3]
-  | .dty n i :: es => by
-      have i3 := resolveH_erase sc es
+      cases h5 : resolveH d sc es <;> cases h6 : resolveH d sc (eraseL es) <;> rw [h5, h6] at i3 <;>
+        simp only [eraseRL, Except.ok.injEq, Except.error.injEq, reduceCtorEq] at i3 <;>
+        simp [eraseRL, eraseL, RV.erase, i3]
+  | .dty n ps m :: es => by
+      have i3 := resolveH_erase d sc es
       simp only [resolveH, eraseL, RV.erase]
-      cases h5 : resolveH sc es <;> cases h6 : resolveH sc (eraseL es) <;> rw [h5, h6] at i3 <;>
-        simp only [eraseRL, Except.ok.injEq, Except.error.injEq, reduceCtorEq] at i3 <;> simp [eraseRL, eraseL, RV.erase, i3]
+      cases h5 : resolveH d sc es <;> cases h6 : resolveH d sc (eraseL es) <;> rw [h5, h6] at i3 <;>
+        simp only [eraseRL, Except.ok.injEq, Except.error.injEq, reduceCtorEq] at i3 <;>
+        simp [eraseRL, eraseL, RV.erase, i3, eraseL_idem]
   | .arr i :: es => by
-      have i3 := resolveH_erase sc es
+      have i3 := resolveH_erase d sc es
       simp only [resolveH, eraseL, RV.erase]
-      cases h5 : resolveH sc es <;> cases h6 : resolveH sc (eraseL es) <;> rw [h5, h6] at i3 <;>
+      cases h5 : resolveH d sc es <;> cases h6 : resolveH d sc (eraseL es) <;> rw [h5, h6] at i3 <;>
         simp only [eraseRL, Except.ok.injEq, Except.error.injEq, reduceCtorEq] at i3 <;>
         simp [eraseRL, eraseL, RV.erase, i3, eraseL_idem]
   | .hsh i :: es => by
-      have i3 := resolveH_erase sc es
+      have i3 := resolveH_erase d sc es
       simp only [resolveH, eraseL, RV.erase]
-      cases h5 : resolveH sc es <;> cases h6 : resolveH sc (eraseL es) <;> rw [h5, h6] at i3 <;>
+      cases h5 : resolveH d sc es <;> cases h6 : resolveH d sc (eraseL es) <;> rw [h5, h6] at i3 <;>
         simp only [eraseRL, Except.ok.injEq, Except.error.injEq, reduceCtorEq] at i3 <;>
         simp [eraseRL, eraseL, RV.erase, i3, eraseL_idem]
   | .dfr n i :: es => by
-      have i3 := resolveH_erase sc es
+      have i3 := resolveH_erase d sc es
       simp only [resolveH, eraseL, RV.erase]
-      cases h5 : resolveH sc es <;> cases h6 : resolveH sc (eraseL es) <;> rw [h5, h6] at i3 <;>
+      cases h5 : resolveH d sc es <;> cases h6 : resolveH d sc (eraseL es) <;> rw [h5, h6] at i3 <;>
         simp only [eraseRL, Except.ok.injEq, Except.error.injEq, reduceCtorEq] at i3 <;>
         simp [eraseRL, eraseL, RV.erase, i3, eraseL_idem]
 end
@@ -434,7 +310,7 @@ theorem render_erase : ∀ v : RV, v.erase.render = v.render
   | .str _ => rfl
   | .undef => rfl
   | .ty _ => rfl
-  | .dty _ _ => by simp [RV.erase, RV.render]
+  | .dty _ ps _ => by simp only [RV.erase, RV.render]; rw [renderL_erase ps]
   | .ent k v => by simp only [RV.erase, RV.render]; rw [render_erase k, render_erase v]
   | .arr xs => by simp only [RV.erase, RV.render]; rw [renderL_erase xs]
   | .hsh xs => by simp only [RV.erase, RV.render]; rw [renderH_erase xs]
@@ -449,7 +325,10 @@ theorem renderH_erase : ∀ xs : List RV, renderH (eraseL xs) = renderH xs
   | .str _ :: xs => by simp only [eraseL, RV.erase, renderH]; rw [renderH_erase xs]
   | .undef :: xs => by simp only [eraseL, RV.erase, renderH]; rw [renderH_erase xs]
   | .ty _ :: xs => by simp only [eraseL, RV.erase, renderH]; rw [renderH_erase xs]
-  | .dty _ _ :: xs => by simp only [eraseL, RV.erase, renderH, RV.render]; rw [renderH_erase xs]
+  | .dty n ps m :: xs => by
+      have h := render_erase (.dty n ps m)
+      simp only [RV.erase] at h
+      simp only [eraseL, RV.erase, renderH]; rw [renderH_erase xs, h]
   | .arr ys :: xs => by
       have h := render_erase (.arr ys)
       simp only [RV.erase] at h
@@ -470,27 +349,319 @@ theorem answerText_eraseR (r : Except RErr RV) : answerText (eraseR r) = answerT
   | error e => rfl
   | ok v => simp only [eraseR, answerText]; rw [render_erase]
 
+
+/-! ### what a DeferredType resolves to does not depend on mode, scope, memo, or the memos inside its parameters -/
+
+theorem resolve_dty_shape (d : Bool) (sc : List RV) (n : String) (ps : List RV) (m : Option String) :
+    (∃ t, resolve d sc (.dty n ps m) = .ok (.ty t)) ∨ ∃ e, resolve d sc (.dty n ps m) = .error e := by
+  simp only [resolve]
+  split
+  · exact Or.inl ⟨_, rfl⟩
+  · cases resolveL true [] ps with
+    | error e => exact Or.inr ⟨e, rfl⟩
+    | ok as =>
+      simp only
+      cases paramTypeText n as with
+      | error e => exact Or.inr ⟨e, rfl⟩
+      | ok t => exact Or.inl ⟨t, rfl⟩
+
+theorem resolve_dty_eq (d : Bool) (sc : List RV) (n : String) (ps : List RV) (m : Option String) :
+    resolve d sc (.dty n ps m) = resolve false [] (.dty n (eraseL ps) none) := by
+  have h := resolve_erase d sc (.dty n ps m)
+  have h2 : resolve d sc (RV.dty n ps m).erase = resolve false [] (.dty n (eraseL ps) none) := by
+    simp only [RV.erase, resolve]
+  rw [h2] at h
+  rcases resolve_dty_shape d sc n ps m with ⟨t, ht⟩ | ⟨e, he⟩ <;>
+    rcases resolve_dty_shape false [] n (eraseL ps) none with ⟨t', ht'⟩ | ⟨e', he'⟩ <;>
+    simp_all [eraseR, RV.erase]
+
+theorem resolve_of_dtyPure (d : Bool) (sc : List RV) (n : String) (ps : List RV) (m : Option String) (t : String)
+    (h : dtyPure n ps = some t) : resolve d sc (.dty n ps m) = .ok (.ty t) := by
+  rw [resolve_dty_eq]
+  unfold dtyPure at h
+  rcases resolve_dty_shape false [] n (eraseL ps) none with ⟨t', ht'⟩ | ⟨e', he'⟩
+  · rw [ht'] at h ⊢; simp only [Option.some.injEq] at h; rw [h]
+  · rw [he'] at h; cases h
+
+theorem dtyPure_of_resolve (d : Bool) (sc : List RV) (n : String) (ps : List RV) (m : Option String) (t : String)
+    (h : resolve d sc (.dty n ps m) = .ok (.ty t)) : dtyPure n ps = some t := by
+  rw [resolve_dty_eq] at h
+  unfold dtyPure
+  rw [h]
+
+/-! ### the frame theorem -/
+
+mutual
+theorem resolveW_frame (W : Writes) (hW : W.dfrArgs = false) (d : Bool) (sc : List RV) :
+    ∀ v : RV, v.memoOK = true →
+      (resolveW W d sc v).1.erase = v.erase ∧ (resolveW W d sc v).1.memoOK = true ∧ (resolveW W d sc v).2 = resolve d sc v
+  | .int _, _ => by simp [resolveW, resolve, RV.memoOK]
+  | .str _, _ => by simp [resolveW, resolve, RV.memoOK]
+  | .undef, _ => by simp [resolveW, resolve, RV.memoOK]
+  | .ty _, _ => by simp [resolveW, resolve, RV.memoOK]
+  | .ent k v, hm => by
+      cases d with
+      | false => simp [resolveW, resolve, hm]
+      | true =>
+        simp only [RV.memoOK, Bool.and_eq_true] at hm
+        obtain ⟨a1, a2, a3⟩ := resolveW_frame W hW true sc k hm.1
+        obtain ⟨c1, c2, c3⟩ := resolveW_frame W hW true sc v hm.2
+        simp only [resolveW, resolve, if_true]
+        rw [← a3, ← c3]
+        rcases hk : resolveW W true sc k with ⟨k', rk⟩
+        rw [hk] at a1 a2
+        cases rk with
+        | error e => exact ⟨by simp only [RV.erase]; rw [a1], by simp only [RV.memoOK, a2, hm.2, Bool.and_self], rfl⟩
+        | ok k2 =>
+          simp only
+          rcases hv : resolveW W true sc v with ⟨v', rv⟩
+          rw [hv] at c1 c2
+          cases rv with
+          | error e => exact ⟨by simp only [RV.erase]; rw [a1, c1], by simp only [RV.memoOK, a2, c2, Bool.and_self], rfl⟩
+          | ok v2 => exact ⟨by simp only [RV.erase]; rw [a1, c1], by simp only [RV.memoOK, a2, c2, Bool.and_self], rfl⟩
+  | .dty n ps m, hm => by
+      simp only [RV.memoOK, Bool.and_eq_true, Bool.or_eq_true, beq_iff_eq] at hm
+      obtain ⟨hps, hmemo⟩ := hm
+      simp only [resolveW]
+      cases hhit : dtyHit W m with
+      | some t =>
+        -- the memo answers: nothing is visited, and the memo is what resolution computes
+        have hm' : m = some t := by
+          unfold dtyHit at hhit
+          split at hhit
+          · exact hhit
+          · cases hhit
+        subst hm'
+        have hp : dtyPure n ps = some t := by
+          rcases hmemo with h | h
+          · cases h
+          · exact h.symm
+        refine ⟨rfl, ?_, ?_⟩
+        · simp only [RV.memoOK, hps, Bool.true_and, Bool.or_eq_true, beq_iff_eq]; exact Or.inr hp.symm
+        · exact (resolve_of_dtyPure d sc n ps (some t) t hp).symm
+      | none =>
+        simp only
+        by_cases he : ps.isEmpty = true
+        · simp only [he, if_true]
+          have hnil : ps = [] := List.isEmpty_iff.mp he
+          subst hnil
+          refine ⟨rfl, ?_, by simp [resolve]⟩
+          simp only [RV.memoOK, memoOKL, Bool.true_and, Bool.or_eq_true, beq_iff_eq]
+          have hp : dtyPure n [] = some (typeText n) := by simp [dtyPure, eraseL, resolve]
+          unfold dtyStore
+          split
+          · exact hmemo
+          · exact Or.inr hp.symm
+        · simp only [he, Bool.false_eq_true, if_false]
+          obtain ⟨h1, h2, h3⟩ := resolveWL_frame W hW true [] ps hps
+          have hres : resolve d sc (.dty n ps m) =
+              (match resolveL true [] ps with
+               | .error e => .error e
+               | .ok as => match paramTypeText n as with
+                 | .error e => .error e
+                 | .ok t => .ok (.ty t)) := by
+            simp only [resolve, he, Bool.false_eq_true, if_false]
+            cases resolveL true [] ps with
+            | error e => rfl
+            | ok as => simp only; cases paramTypeText n as <;> rfl
+          rw [hres, ← h3]
+          rcases hr : resolveWL W true [] ps with ⟨ps', r⟩
+          rw [hr] at h1 h2 h3
+          have hpure : dtyPure n ps' = dtyPure n ps := by unfold dtyPure; rw [h1]
+          cases r with
+          | error e =>
+            refine ⟨by simp only [RV.erase]; rw [h1], ?_, rfl⟩
+            simp only [RV.memoOK, h2, Bool.true_and, Bool.or_eq_true, beq_iff_eq, hpure]; exact hmemo
+          | ok as =>
+            simp only
+            cases hpt : paramTypeText n as with
+            | error e =>
+              refine ⟨by simp only [RV.erase]; rw [h1], ?_, rfl⟩
+              simp only [RV.memoOK, h2, Bool.true_and, Bool.or_eq_true, beq_iff_eq, hpure]; exact hmemo
+            | ok t =>
+              refine ⟨by simp only [RV.erase]; rw [h1], ?_, rfl⟩
+              have hp : dtyPure n ps = some t := by
+                apply dtyPure_of_resolve false [] n ps none t
+                simp only [resolve, he, Bool.false_eq_true, if_false]
+                rw [← h3]
+                simp only [hpt]
+              simp only [RV.memoOK, h2, Bool.true_and, Bool.or_eq_true, beq_iff_eq, hpure]
+              unfold dtyStore
+              split
+              · exact hmemo
+              · exact Or.inr hp.symm
+  | .arr xs, hm => by
+      simp only [RV.memoOK] at hm
+      obtain ⟨h1, h2, h3⟩ := resolveWL_frame W hW d sc xs hm
+      simp only [resolveW, resolve]
+      rw [← h3]
+      rcases hr : resolveWL W d sc xs with ⟨xs', r⟩
+      rw [hr] at h1 h2
+      cases r with
+      | error e => exact ⟨by simp only [RV.erase]; rw [h1], by simp only [RV.memoOK]; exact h2, rfl⟩
+      | ok ys => exact ⟨by simp only [RV.erase]; rw [h1], by simp only [RV.memoOK]; exact h2, rfl⟩
+  | .hsh es, hm => by
+      simp only [RV.memoOK] at hm
+      obtain ⟨h1, h2, h3⟩ := resolveWH_frame W hW d sc es hm
+      simp only [resolveW, resolve]
+      rw [← h3]
+      rcases hr : resolveWH W d sc es with ⟨es', r⟩
+      rw [hr] at h1 h2
+      cases r with
+      | error e => exact ⟨by simp only [RV.erase]; rw [h1], by simp only [RV.memoOK]; exact h2, rfl⟩
+      | ok ys => exact ⟨by simp only [RV.erase]; rw [h1], by simp only [RV.memoOK]; exact h2, rfl⟩
+  | .dfr n as, hm => by
+      simp only [RV.memoOK] at hm
+      obtain ⟨h1, h2, h3⟩ := resolveWL_frame W hW false sc as hm
+      simp only [resolveW, resolve, hW, Bool.false_and, Bool.false_eq_true, if_false]
+      rw [← h3]
+      rcases hr : resolveWL W false sc as with ⟨as', r⟩
+      rw [hr] at h1 h2
+      cases r with
+      | error e => exact ⟨by simp only [RV.erase]; rw [h1], by simp only [RV.memoOK]; exact h2, rfl⟩
+      | ok ys => exact ⟨by simp only [RV.erase]; rw [h1], by simp only [RV.memoOK]; exact h2, rfl⟩
+theorem resolveWL_frame (W : Writes) (hW : W.dfrArgs = false) (d : Bool) (sc : List RV) :
+    ∀ xs : List RV, memoOKL xs = true →
+      eraseL (resolveWL W d sc xs).1 = eraseL xs ∧ memoOKL (resolveWL W d sc xs).1 = true ∧
+        (resolveWL W d sc xs).2 = resolveL d sc xs
+  | [], _ => by simp [resolveWL, resolveL, eraseL, memoOKL]
+  | x :: xs, hm => by
+      simp only [memoOKL, Bool.and_eq_true] at hm
+      obtain ⟨a1, a2, a3⟩ := resolveW_frame W hW d sc x hm.1
+      obtain ⟨b1, b2, b3⟩ := resolveWL_frame W hW d sc xs hm.2
+      simp only [resolveWL, resolveL]
+      rw [← a3, ← b3]
+      rcases hx : resolveW W d sc x with ⟨x', r⟩
+      rw [hx] at a1 a2
+      cases r with
+      | error e => exact ⟨by simp only [eraseL]; rw [a1], by simp only [memoOKL, a2, hm.2, Bool.and_self], rfl⟩
+      | ok y =>
+        simp only
+        rcases hxs : resolveWL W d sc xs with ⟨xs', rs⟩
+        rw [hxs] at b1 b2
+        cases rs with
+        | error e => exact ⟨by simp only [eraseL]; rw [a1, b1], by simp only [memoOKL, a2, b2, Bool.and_self], rfl⟩
+        | ok ys => exact ⟨by simp only [eraseL]; rw [a1, b1], by simp only [memoOKL, a2, b2, Bool.and_self], rfl⟩
+theorem resolveWH_frame (W : Writes) (hW : W.dfrArgs = false) (d : Bool) (sc : List RV) :
+    ∀ es : List RV, memoOKL es = true →
+      eraseL (resolveWH W d sc es).1 = eraseL es ∧ memoOKL (resolveWH W d sc es).1 = true ∧
+        (resolveWH W d sc es).2 = resolveH d sc es
+  | [], _ => by simp [resolveWH, resolveH, eraseL, memoOKL]
+  | .ent k v :: es, hm => by
+      simp only [memoOKL, RV.memoOK, Bool.and_eq_true] at hm
+      obtain ⟨a1, a2, a3⟩ := resolveW_frame W hW d sc k hm.1.1
+      obtain ⟨c1, c2, c3⟩ := resolveW_frame W hW d sc v hm.1.2
+      obtain ⟨b1, b2, b3⟩ := resolveWH_frame W hW d sc es hm.2
+      simp only [resolveWH, resolveH]
+      rw [← a3, ← c3, ← b3]
+      rcases hk : resolveW W d sc k with ⟨k', rk⟩
+      rw [hk] at a1 a2
+      cases rk with
+      | error e =>
+        exact ⟨by simp only [eraseL, RV.erase]; rw [a1], by simp only [memoOKL, RV.memoOK, a2, hm.1.2, hm.2, Bool.and_self], rfl⟩
+      | ok k2 =>
+        simp only
+        rcases hv : resolveW W d sc v with ⟨v', rv⟩
+        rw [hv] at c1 c2
+        cases rv with
+        | error e =>
+          exact ⟨by simp only [eraseL, RV.erase]; rw [a1, c1], by simp only [memoOKL, RV.memoOK, a2, c2, hm.2, Bool.and_self], rfl⟩
+        | ok v2 =>
+          simp only
+          rcases hes : resolveWH W d sc es with ⟨es', rs⟩
+          rw [hes] at b1 b2
+          cases rs with
+          | error e =>
+            exact ⟨by simp only [eraseL, RV.erase]; rw [a1, c1, b1], by simp only [memoOKL, RV.memoOK, a2, c2, b2, Bool.and_self], rfl⟩
+          | ok fs =>
+            exact ⟨by simp only [eraseL, RV.erase]; rw [a1, c1, b1], by simp only [memoOKL, RV.memoOK, a2, c2, b2, Bool.and_self], rfl⟩
+  | .int i :: es, hm => by
+      simp only [memoOKL, Bool.and_eq_true] at hm
+      obtain ⟨b1, b2, b3⟩ := resolveWH_frame W hW d sc es hm.2
+      simp only [resolveWH, resolveH]
+      rw [← b3]
+      rcases hes : resolveWH W d sc es with ⟨es', rs⟩
+      rw [hes] at b1 b2
+      cases rs <;> exact ⟨by simp only [eraseL]; rw [b1], by simp only [memoOKL, hm.1, b2, Bool.and_self], rfl⟩
+  | .str i :: es, hm => by
+      simp only [memoOKL, Bool.and_eq_true] at hm
+      obtain ⟨b1, b2, b3⟩ := resolveWH_frame W hW d sc es hm.2
+      simp only [resolveWH, resolveH]
+      rw [← b3]
+      rcases hes : resolveWH W d sc es with ⟨es', rs⟩
+      rw [hes] at b1 b2
+      cases rs <;> exact ⟨by simp only [eraseL]; rw [b1], by simp only [memoOKL, hm.1, b2, Bool.and_self], rfl⟩
+  | .undef :: es, hm => by
+      simp only [memoOKL, Bool.and_eq_true] at hm
+      obtain ⟨b1, b2, b3⟩ := resolveWH_frame W hW d sc es hm.2
+      simp only [resolveWH, resolveH]
+      rw [← b3]
+      rcases hes : resolveWH W d sc es with ⟨es', rs⟩
+      rw [hes] at b1 b2
+      cases rs <;> exact ⟨by simp only [eraseL]; rw [b1], by simp only [memoOKL, hm.1, b2, Bool.and_self], rfl⟩
+  | .ty i :: es, hm => by
+      simp only [memoOKL, Bool.and_eq_true] at hm
+      obtain ⟨b1, b2, b3⟩ := resolveWH_frame W hW d sc es hm.2
+      simp only [resolveWH, resolveH]
+      rw [← b3]
+      rcases hes : resolveWH W d sc es with ⟨es', rs⟩
+      rw [hes] at b1 b2
+      cases rs <;> exact ⟨by simp only [eraseL]; rw [b1], by simp only [memoOKL, hm.1, b2, Bool.and_self], rfl⟩
+  | .arr i :: es, hm => by
+      simp only [memoOKL, Bool.and_eq_true] at hm
+      obtain ⟨b1, b2, b3⟩ := resolveWH_frame W hW d sc es hm.2
+      simp only [resolveWH, resolveH]
+      rw [← b3]
+      rcases hes : resolveWH W d sc es with ⟨es', rs⟩
+      rw [hes] at b1 b2
+      cases rs <;> exact ⟨by simp only [eraseL]; rw [b1], by simp only [memoOKL, hm.1, b2, Bool.and_self], rfl⟩
+  | .hsh i :: es, hm => by
+      simp only [memoOKL, Bool.and_eq_true] at hm
+      obtain ⟨b1, b2, b3⟩ := resolveWH_frame W hW d sc es hm.2
+      simp only [resolveWH, resolveH]
+      rw [← b3]
+      rcases hes : resolveWH W d sc es with ⟨es', rs⟩
+      rw [hes] at b1 b2
+      cases rs <;> exact ⟨by simp only [eraseL]; rw [b1], by simp only [memoOKL, hm.1, b2, Bool.and_self], rfl⟩
+  | .dfr n i :: es, hm => by
+      simp only [memoOKL, Bool.and_eq_true] at hm
+      obtain ⟨b1, b2, b3⟩ := resolveWH_frame W hW d sc es hm.2
+      simp only [resolveWH, resolveH]
+      rw [← b3]
+      rcases hes : resolveWH W d sc es with ⟨es', rs⟩
+      rw [hes] at b1 b2
+      cases rs <;> exact ⟨by simp only [eraseL]; rw [b1], by simp only [memoOKL, hm.1, b2, Bool.and_self], rfl⟩
+  | .dty n ps i :: es, hm => by
+      simp only [memoOKL, Bool.and_eq_true] at hm
+      obtain ⟨b1, b2, b3⟩ := resolveWH_frame W hW d sc es hm.2
+      simp only [resolveWH, resolveH]
+      rw [← b3]
+      rcases hes : resolveWH W d sc es with ⟨es', rs⟩
+      rw [hes] at b1 b2
+      cases rs <;> exact ⟨by simp only [eraseL]; rw [b1], by simp only [memoOKL, hm.1, b2, Bool.and_self], rfl⟩
+end
+
 /-- values with the same observable content resolve alike (up to memos carried along unresolved) -/
-theorem resolve_sim (sc : List RV) {v v' : RV} (h : v.erase = v'.erase) :
-    eraseR (resolve sc v) = eraseR (resolve sc v') := by
-  rw [resolve_erase sc v, resolve_erase sc v', h]
+theorem resolve_sim (d : Bool) (sc : List RV) {v v' : RV} (h : v.erase = v'.erase) :
+    eraseR (resolve d sc v) = eraseR (resolve d sc v') := by
+  rw [resolve_erase d sc v, resolve_erase d sc v', h]
 
 /-! ### resolutions in sequence -/
 
 theorem resolveSeq_frame (W : Writes) (hW : W.dfrArgs = false) :
     ∀ (scs : List (List RV)) (v : RV), v.memoOK = true →
       (resolveSeq W v scs).1.erase = v.erase ∧ (resolveSeq W v scs).1.memoOK = true ∧
-      (resolveSeq W v scs).2.map eraseR = scs.map (fun sc => eraseR (resolve sc v))
+      (resolveSeq W v scs).2.map eraseR = scs.map (fun sc => eraseR (resolve false sc v))
   | [], v, hm => ⟨rfl, hm, rfl⟩
   | sc :: scs, v, hm => by
-      obtain ⟨a1, a2, a3⟩ := resolveW_frame W hW sc v hm
-      obtain ⟨b1, b2, b3⟩ := resolveSeq_frame W hW scs (resolveW W sc v).1 a2
+      obtain ⟨a1, a2, a3⟩ := resolveW_frame W hW false sc v hm
+      obtain ⟨b1, b2, b3⟩ := resolveSeq_frame W hW scs (resolveW W false sc v).1 a2
       simp only [resolveSeq, List.map_cons]
       refine ⟨b1.trans a1, b2, ?_⟩
       rw [b3, a3]
       congr 1
       apply List.map_congr_left
       intro sc' _
-      exact resolve_sim sc' a1
+      exact resolve_sim false sc' a1
 
 end Pcore.Immut
